@@ -17,4 +17,6 @@ Extraction "model.ml"
   (* ValueIndex *) store_db_value load_db_value store_kv load_kv remove_value remove_kv fresh_ix lookup
                    is_value vi_index vi_type vi_size wf_value utf8_lossy
   (* OpenFile *) open_file OpenFile.value_as_bytes OpenFile.table_get alloc_limit og_fixed og_pinned
-  (* Storage *) with_data st_step live_values ops_file ops_mem mem_raw file_raw mapped_raw spec_init spec_step accepts tight_len st_run.
+  (* Storage *) with_data st_step live_values ops_file ops_mem mem_raw file_raw mapped_raw spec_init spec_step accepts tight_len st_run
+  (* ConcRead *) conc_init conc_step conc_pc conc_lock conc_result ConcRead.file_read
+  (* DeriveType *) to_values from_element db_keys select_pairs upsert_pairs.
